@@ -78,7 +78,7 @@ Clauses17 == {"Returns", "CoordsKept",
               "CropExactly",
               "ExtendLatticePoints", "ExtendOldKept", "ExtendNewFill", "ExtendOpenEndExcluded",
               "ExactlyWidth", "BlockPlacement",
-              "Drift/CentreSplit"}                       \* not a demand: reported as MODEL-DRIFT (the code left the Impl transcription)
+              "Drift/CentreSplit", "Drift/WidthNewFill"}                       \* not a demand: reported as MODEL-DRIFT (the code left the Impl transcription)
 
 \* every sample that carries an original datum still has that datum's original coordinate (the same double)
 CoordsKept(c, r) == /\ Len(r.cout) = Len(r.data) /\ Len(r.lout) = Len(r.data) /\ Len(r.cin) = c.n
@@ -126,6 +126,14 @@ HoldsWidth(cl, c, r) ==
             ELSE L <= c.n /\ \E off \in Offs(c.pos, c.n - L) : \A t \in 1..L : row[t] = Val(c, off + t - 1) + base
       \* The statement says "centre": Offs accepts the odd sample on either side.  The implementation puts it behind when
       \* extending (front = extra // 2) and crops from n // 2 - w // 2; a result that is centred but splits otherwise is drift.
+      \* The statement is silent about what the samples ADDED by adjust_dim_width / extend_dim_width hold; the implementation
+      \* reindexes with fill_value (docstring: "the value to fill the extended region with").  Tracked as drift here, demanded by
+      \* the extension check X02 (clause WidthFill), which specifies the docstrings.
+      [] cl = "Drift/WidthNewFill" ->
+            (c.w >= c.n /\ DD(c) # "b1" /\ Len(R) >= 1 /\ Len(R[1]) >= c.n) =>
+               LET row == R[1]  L == Len(R[1])  fill == IF "fill" \in DOMAIN c THEN c.fill ELSE 0 IN
+               \E off \in Offs(c.pos, L - c.n) : \A t \in 1..L :
+                  row[t] = (IF t - off - 1 \in 0..(c.n - 1) THEN Val(c, t - off - 1) ELSE fill)
       [] cl = "Drift/CentreSplit" ->
             (c.pos = "center" /\ DD(c) # "b1" /\ Len(R) >= 1 /\ Len(R[1]) >= 1) =>
                LET row == R[1]  L == Len(R[1]) IN
